@@ -28,6 +28,9 @@ mod statement;
 mod subprogram;
 mod token;
 
+#[cfg(vhdl_ls_rust_hdl_verif)]
+pub(crate) use buffer::Buffer as VerifHooksBuffer;
+
 /// The formatter is the main entry point used for formatting a single
 /// Design Unit from AST representation to string representation. In that sense,
 /// the Formatter is the inverse to the Parser.
